@@ -92,6 +92,39 @@ var stringContexts = []litContext{
 	{"raw-array", func(q string) string { return "[[{{ [" + q + "][0].raw() }}]]" }, func(l string) string { return l }, true},
 }
 
+// contexts in which the value holding the literal is used by something else first - a concatenation
+// through then()/rand()/an element access, an append on the same array - and only then printed
+var reuseContexts = []litContext{
+	{"then-concat-then-variable", func(q string) string { return "{{ x = " + q + " }}{{ true.then(x, \"\") + \"<i>\" }}[[{{ x }}]]" }, func(l string) string { return l }, false},
+	{"then-concat-then-raw", func(q string) string {
+		return "{{ x = " + q + " }}{{ false.then(\"\", x) + \"<i>\" }}[[{{ x.raw() }}]]"
+	}, func(l string) string { return l }, true},
+	{"rand-concat-then-element", func(q string) string { return "{{ a = [" + q + "] }}{{ a.rand() + \"<i>\" }}[[{{ a[0] }}]]" }, func(l string) string { return l }, false},
+	{"element-concat-then-array", func(q string) string {
+		return "{{ a = [" + q + "] }}{{ a[0] + \"t\" }}{{ a.rand() + \"t\" }}{{ a.slice(0)[0] + \"t\" }}{{ a.reverse()[0] + \"t\" }}[[{{ a }}]]"
+	}, func(l string) string { return l }, false},
+	{"variable-concat-then-variable", func(q string) string { return "{{ x = " + q + " }}{{ x + \"<i>\" }}{{ (x + x).len() }}[[{{ x }}]]" }, func(l string) string { return l }, false},
+	{"ternary-concat-then-variable", func(q string) string { return "{{ x = " + q + " }}{{ (1 ? x : \"\") + \"<i>\" }}[[{{ x }}]]" }, func(l string) string { return l }, false},
+	{"loop-concat-then-variable", func(q string) string {
+		return "{{ x = " + q + " }}@each(k in [1, 2]){{ y = x }}{{ y + \"<i>\" }}@end[[{{ x }}]]"
+	}, func(l string) string { return l }, false},
+	{"append-twice-first-result", func(q string) string {
+		return "{{ a = [\"1\", \"2\", \"3\"] }}{{ b = a.append(" + q + ") }}{{ c = a.append(\"<y>\") }}[[{{ b[3] }}]]"
+	}, func(l string) string { return l }, false},
+	{"append-twice-second-result", func(q string) string {
+		return "{{ a = [\"1\", \"2\", \"3\", \"4\", \"5\"] }}{{ b = a.append(\"<x>\") }}{{ c = a.append(" + q + ") }}[[{{ c[5] }}]]{{ b[5] }}"
+	}, func(l string) string { return l }, false},
+	{"slice-append-then-original", func(q string) string {
+		return "{{ a = [\"p\", " + q + "] }}{{ a.slice(0, 1).append(\"<z>\").len() }}[[{{ a[1] }}]]"
+	}, func(l string) string { return l }, false},
+	{"prepend-twice-first-result", func(q string) string {
+		return "{{ a = [\"1\", \"2\", \"3\"] }}{{ b = a.prepend(" + q + ") }}{{ c = a.prepend(\"<y>\") }}[[{{ b[0] }}]]"
+	}, func(l string) string { return l }, false},
+	{"reverse-then-original", func(q string) string {
+		return "{{ a = [" + q + ", \"<z>\", \"3\"] }}{{ a.reverse().len() }}[[{{ a[0] }}]]"
+	}, func(l string) string { return l }, false},
+}
+
 func segmentOf(out string) (string, bool) {
 	a := strings.Index(out, "[[")
 	b := strings.LastIndex(out, "]]")
@@ -119,14 +152,16 @@ func judgeSegment(c *core.Ctx, ctxName, src, out, want string, raw bool) {
 }
 
 func init() {
-	runLit := func(c *core.Ctx, l string) {
+	var runIn func(c *core.Ctx, l string, ctxs []litContext)
+	runLit := func(c *core.Ctx, l string) { runIn(c, l, stringContexts) }
+	runIn = func(c *core.Ctx, l string, ctxs []litContext) {
 		for qi, q := range []byte{'"', '\''} {
 			if !model.CanQuote(l, q) {
 				c.Count("literals_not_expressible_skipped", 1)
 				continue
 			}
 			quoted := model.QuoteString(l, q)
-			for _, lc := range stringContexts {
+			for _, lc := range ctxs {
 				src := lc.src(quoted)
 				c.Input(src)
 				got := evalString(c, src, nil)
@@ -141,14 +176,14 @@ func init() {
 				judgeSegment(c, lc.name, src, got.Out, lc.want(l), lc.raw)
 			}
 			if qi == 0 {
-				c.Sample(map[string]any{"literal": l, "example_source": stringContexts[0].src(quoted)})
+				c.Sample(map[string]any{"literal": l, "example_source": ctxs[0].src(quoted)})
 			}
 		}
 	}
 	core.Register(&core.Check{
 		ID:    "C10",
 		Level: "exploration",
-		Rule: "literal contents are all strings of up to k atoms over an alphabet rich in < > & ; # quotes, letters/digits that spell existing entities (&lt; &amp;lt; &#39; &#34 …) and UTF-8, in both quote styles, placed in every usage context of the statement (printed, concatenated, assigned, array element printed/indexed/iterated, object field, ternary arm, then() argument, insert argument, insert block, component argument, slot body, layout text) and under raw(); " +
+		Rule: "literal contents are all strings of up to k atoms over an alphabet rich in < > & ; # quotes, letters/digits that spell existing entities (&lt; &amp;lt; &#39; &#34 …) and UTF-8, in both quote styles, placed in every usage context of the statement (printed, concatenated, assigned, array element printed/indexed/iterated, object field, ternary arm, then() argument, insert argument, insert block, component argument, slot body, layout text) and under raw(); 12 contexts in which the value is first used by a concatenation through then()/rand()/an element access or by append/prepend/slice/reverse on the same array and only then printed; component arguments that read page variables named like other keys of the call; " +
 			"the rendered segment is isolated by delimiters and must contain no raw < or >, only entity '&'s, the same quotes, unescape to the literal byte for byte; raw() must give the literal exactly. distinct_nontrivial = distinct (context, literal, quote) sources",
 		Assumptions: []string{
 			"a literal is written with a backslash before its delimiter quote; contents ending in a backslash or containing backslash-quote cannot be written and are skipped",
@@ -177,6 +212,8 @@ func init() {
 						runLit(c, s+a)
 					}
 				}})
+			// the value is used by something else before it is printed
+			secs = append(secs, seqSections("reuse-literal-", escapeAtoms, kt, func(c *core.Ctx, l string) { runIn(c, l, reuseContexts) })...)
 			// template-tree contexts: insert argument, insert block, component argument, slot body
 			secs = append(secs, seqSections("tree-literal-", escapeAtoms, kt, func(c *core.Ctx, l string) { runTreeLiteral(c, l) })...)
 			return secs
@@ -196,6 +233,9 @@ func runTreeLiteral(c *core.Ctx, l string) {
 			"components/card.tw": "C<{{ title }}|@slot|@slot(\"raw\")|{{ title.raw() }}>",
 			"page.tw":            "@use(\"~main\")@insert(\"arg\", " + quoted + ")@insert(\"block\"){{ " + quoted + " }}@end@insert(\"argraw\", " + quoted + ".raw())",
 			"comp.tw":            "@component(\"~card\", {title: " + quoted + "})@slot{{ " + quoted + " }}@end@slot(\"raw\"){{ " + quoted + ".raw() }}@end@end",
+			// arguments that read page variables named like other keys of the same call
+			"components/pair.tw": "P<{{ a }}|{{ b }}|{{ c }}>",
+			"pair.tw":            "{{ a = " + quoted + " }}{{ c = \"<c>\" }}@component(\"~pair\", {a: \"first\", b: a, c: a})",
 		}
 		tpl, err := loadTree(c, "c10tree", files, ".tw")
 		if err != nil {
@@ -239,6 +279,15 @@ func runTreeLiteral(c *core.Ctx, l string) {
 				judgeSegment(c, "insert-argument-raw", files["page.tw"], "[["+parts[2]+"]]", l, true)
 			}
 		}
+		if out, ok := render("pair"); ok {
+			parts := strings.Split(strings.TrimSuffix(strings.TrimPrefix(out, "P<"), ">"), "|")
+			if len(parts) != 3 || !strings.HasPrefix(out, "P<") {
+				c.Violation("escape:tree:shape", fmt.Sprintf("unexpected component output %q", out), map[string]any{"literal": l, "files": files})
+			} else {
+				judgeSegment(c, "component-argument-from-page-variable", files["pair.tw"], "[["+parts[1]+"]]", l, false)
+				judgeSegment(c, "component-argument-from-page-variable", files["pair.tw"], "[["+parts[2]+"]]", l, false)
+			}
+		}
 		if out, ok := render("comp"); ok {
 			parts := strings.Split(strings.TrimSuffix(strings.TrimPrefix(out, "C<"), ">"), "|")
 			if len(parts) != 4 || !strings.HasPrefix(out, "C<") {
@@ -258,6 +307,11 @@ func runTreeLiteral(c *core.Ctx, l string) {
 // name is reused from case to case on purpose: anything cached per path
 // inside the library would show up as a stale result.
 func loadTree(c *core.Ctx, dir string, files map[string]string, ext string) (*textwire.Template, error) {
+	return loadTreeAs(c, dir, dir, files, ext)
+}
+
+// loadTreeAs writes the files under dir and configures the template directory as spelled
+func loadTreeAs(c *core.Ctx, dir, spelled string, files map[string]string, ext string) (*textwire.Template, error) {
 	os.RemoveAll(dir)
 	for name, content := range files {
 		p := dir + "/" + name
@@ -269,12 +323,12 @@ func loadTree(c *core.Ctx, dir string, files map[string]string, ext string) (*te
 			return nil, nil
 		}
 	}
-	c.Input(map[string]any{"files": files, "dir": dir, "ext": ext})
+	c.Input(map[string]any{"files": files, "dir": spelled, "ext": ext})
 	textwire.VerifResetConfig()
 	var tpl *textwire.Template
 	var err error
 	c.Eval(1)
-	if c.Guard(func() { tpl, err = textwire.NewTemplate(&config.Config{TemplateDir: dir, TemplateExt: ext}) }) {
+	if c.Guard(func() { tpl, err = textwire.NewTemplate(&config.Config{TemplateDir: spelled, TemplateExt: ext}) }) {
 		return nil, nil
 	}
 	return tpl, err
